@@ -8,6 +8,7 @@ import Driver.C03
 import Driver.C09
 import Driver.Re
 import Driver.C13
+import Driver.C20
 namespace Driver
 
 def dispatch (op : String) : Option Handler :=
@@ -32,6 +33,7 @@ def dispatch (op : String) : Option Handler :=
   | "cmp3" => some C09.cmp3
   | "dslsort" => some C09.dslsort
   | "join" => some C13.join
+  | "fanout" => some C20.fanout
   | "re" => some Re.re
   | "bystand" => some C03.bystand
   | "pair" => some Verbs.pair
